@@ -777,11 +777,11 @@ Qed.
 
 (* allocPage keeps both policies *)
 Lemma alloc_page_L (Hc : cfg_ok c) v U X lr size align flags sub s :
-  VamInvU c v U X -> LInv v -> Bits.pow2 align -> 0 <= s < zlen (v_tab v) -> a_allocated (get_alloc v s) = false ->
+  VamInvU c v U X -> LInv v -> Bits.pow2 align -> min_ok v lr align -> 0 <= s < zlen (v_tab v) -> a_allocated (get_alloc v s) = false ->
   let '(v', r) := alloc_page c v lr size align flags sub s in
   match r with PANIC | STUCK => True | _ => LInv v' end.
 Proof.
-  intros HI HL Hal Hs Hdead. pose proof (alloc_page_inv c Hc v U X lr size align flags sub s HI Hal Hs Hdead) as P.
+  intros HI HL Hal Hmin Hs Hdead. pose proof (alloc_page_inv c Hc v U X lr size align flags sub s HI Hal Hmin Hs Hdead) as P.
   destruct (get_blist v lr) as [l|] eqn:Hg; [|unfold alloc_page; rewrite Hg; exact I].
   pose proof (alloc_page_eff v lr l size align flags sub s Hg Hs) as E.
   destruct (alloc_page c v lr size align flags sub s) as (v' & r).
@@ -829,17 +829,17 @@ Proof.
 Qed.
 
 Lemma allocate_loop_L (Hc : cfg_ok c) slots : forall v U X lr done size align flags sub,
-  VamInvU c v U X -> LInv v -> Bits.pow2 align -> NoDup slots -> dead_slots v slots ->
+  VamInvU c v U X -> LInv v -> Bits.pow2 align -> min_ok v lr align -> NoDup slots -> dead_slots v slots ->
   let '(v', r, done') := allocate_loop c v lr slots done size align flags sub in
   match r with PANIC | STUCK => True | _ => LInv v' end.
 Proof.
-  induction slots as [|s tl IH]; intros v U X lr done size align flags sub HI HL Hal Hnd Hdead; cbn [allocate_loop]; [exact HL|].
+  induction slots as [|s tl IH]; intros v U X lr done size align flags sub HI HL Hal Hmin Hnd Hdead; cbn [allocate_loop]; [exact HL|].
   destruct (Hdead s (or_introl eq_refl)) as (Hr & Hd). inversion Hnd as [|? ? Hns Hnd']; subst.
-  pose proof (alloc_page_inv c Hc v U X lr size align flags sub s HI Hal Hr Hd) as AP.
-  pose proof (alloc_page_L Hc v U X lr size align flags sub s HI HL Hal Hr Hd) as AL.
+  pose proof (alloc_page_inv c Hc v U X lr size align flags sub s HI Hal Hmin Hr Hd) as AP.
+  pose proof (alloc_page_L Hc v U X lr size align flags sub s HI HL Hal Hmin Hr Hd) as AL.
   destruct (alloc_page c v lr size align flags sub s) as (v1 & r). destruct r as [[]|code| |]; try exact I; [|exact AL].
-  cbn [ap_post] in AP. destruct AP as (I1 & T1 & _ & _).
-  apply (IH v1 U X lr (s :: done) size align flags sub I1 AL Hal Hnd').
+  cbn [ap_post] in AP. destruct AP as (I1 & T1 & L1 & _).
+  apply (IH v1 U X lr (s :: done) size align flags sub I1 AL Hal (min_ok_frame _ _ _ _ L1 Hmin) Hnd').
   eapply dead_slots_frame; [intros s1 H1; apply Hdead; right; exact H1|exact T1|]. intros s1 H1 [<-|[]]. contradiction.
 Qed.
 
@@ -868,7 +868,7 @@ Proof.
 Qed.
 
 Lemma allocate_loop_ids (Hc : cfg_ok c) slots : forall v U X lr l done size align flags sub,
-  VamInvU c v U X -> Bits.pow2 align -> NoDup slots -> dead_slots v slots -> get_blist v lr = Some l ->
+  VamInvU c v U X -> Bits.pow2 align -> min_ok v lr align -> NoDup slots -> dead_slots v slots -> get_blist v lr = Some l ->
   let '(v', r, done') := allocate_loop c v lr slots done size align flags sub in
   match r with
   | PANIC | STUCK => True
@@ -876,18 +876,18 @@ Lemma allocate_loop_ids (Hc : cfg_ok c) slots : forall v U X lr l done size alig
          exists l', get_blist v' lr = Some l' /\ grows_to l l'
   end.
 Proof.
-  induction slots as [|s tl IH]; intros v U X lr l done size align flags sub HI Hal Hnd Hdead Hg; cbn [allocate_loop].
+  induction slots as [|s tl IH]; intros v U X lr l done size align flags sub HI Hal Hmin Hnd Hdead Hg; cbn [allocate_loop].
   - split; [intros lr0 _; unfold orel; destruct (get_blist v lr0); [apply lp_refl|exact I]|]. exists l. split; [exact Hg|apply grows_refl].
   - destruct (Hdead s (or_introl eq_refl)) as (Hr & Hd). inversion Hnd as [|? ? Hns Hnd']; subst.
-    pose proof (alloc_page_inv c Hc v U X lr size align flags sub s HI Hal Hr Hd) as AP.
+    pose proof (alloc_page_inv c Hc v U X lr size align flags sub s HI Hal Hmin Hr Hd) as AP.
     pose proof (alloc_page_eff v lr l size align flags sub s Hg Hr) as E.
     destruct (alloc_page c v lr size align flags sub s) as (v1 & r). destruct E as (Eo & l1 & Hg1 & Ep).
     pose proof (page_post_grows _ _ _ _ _ _ Ep) as G1.
     destruct r as [[]|code| |]; try exact I.
-    + cbn [ap_post] in AP. destruct AP as (I1 & T1 & _ & _).
+    + cbn [ap_post] in AP. destruct AP as (I1 & T1 & L1 & _).
       assert (Hd1 : dead_slots v1 tl).
       { eapply dead_slots_frame; [intros s1 H1; apply Hdead; right; exact H1|exact T1|]. intros s1 H1 [<-|[]]. contradiction. }
-      specialize (IH v1 U X lr l1 (s :: done) size align flags sub I1 Hal Hnd' Hd1 Hg1).
+      specialize (IH v1 U X lr l1 (s :: done) size align flags sub I1 Hal (min_ok_frame _ _ _ _ L1 Hmin) Hnd' Hd1 Hg1).
       destruct (allocate_loop c v1 lr tl (s :: done) size align flags sub) as ((v2 & r2) & done2).
       destruct r2 as [[]|code| |]; try exact I; destruct IH as (Io & l2 & Hg2 & G2);
         (split; [intros lr0 Hne; eapply orel_lp_trans; [apply Eo; exact Hne|apply Io; exact Hne]|exists l2; split; [exact Hg2|eapply grows_trans; eauto]]).
@@ -1008,9 +1008,11 @@ Proof.
     destruct Hal as [->|H']; [apply Z.ltb_ge in E; lia|auto]. }
   assert (Hnd0 : NoDup (slots ++ [])) by (rewrite app_nil_r; auto).
   assert (Hbs0 : block_slots v lr X []) by (split; [constructor|intros ? []]).
-  pose proof (allocate_loop_inv c Hc slots v U X lr [] size _ flags sub HI Hal' Hnd0 Hdead Hbs0) as AL.
-  pose proof (allocate_loop_L Hc slots v U X lr [] size _ flags sub HI HL Hal' Hnd Hdead) as LL.
-  pose proof (allocate_loop_ids Hc slots v U X lr l [] size _ flags sub HI Hal' Hnd Hdead Hg) as IL.
+  assert (Hmin0 : min_ok v lr (if align0 <? bl_minalign l then bl_minalign l else align0)).
+  { intros l' G'. rewrite Hg in G'. injection G' as <-. destruct (align0 <? bl_minalign l) eqn:E; [lia|apply Z.ltb_ge in E; lia]. }
+  pose proof (allocate_loop_inv c Hc slots v U X lr [] size _ flags sub HI Hal' Hmin0 Hnd0 Hdead Hbs0) as AL.
+  pose proof (allocate_loop_L Hc slots v U X lr [] size _ flags sub HI HL Hal' Hmin0 Hnd Hdead) as LL.
+  pose proof (allocate_loop_ids Hc slots v U X lr l [] size _ flags sub HI Hal' Hmin0 Hnd Hdead Hg) as IL.
   destruct (allocate_loop c v lr slots [] size _ flags sub) as ((v1 & r) & done).
   destruct r as [[]|code| |]; try exact I; [exact LL|].
   destruct AL as (K1 & B1 & _ & Q1 & O1). destruct IL as (Io1 & l1 & Hg1 & G1).
